@@ -197,6 +197,11 @@ def run_search(stats, name, strategy, n, seed, tier):
         if "case" in last and getattr(stats.mod, "FLAKY_IS_VIOLATION", False):
             del stats.violations[before:]
             stats.violations.append((last["case"], last["detail"] + " [not repeatable within one process]", last["fid"]))
+        elif "case" in last and _fails_in_fresh_process(stats.pid, last["case"]):
+            # the failure did not repeat in this (by now used) process but does in a fresh one: it is a property of the
+            # case and the tree, not of the harness's process
+            del stats.violations[before:]
+            stats.violations.append((last["case"], last["detail"] + " [repeats in a fresh process]", last["fid"]))
         else:
             raise HarnessError("hypothesis failed in search {}: {!r}".format(name, err))
     except hypothesis.errors.HypothesisException as err:
@@ -207,6 +212,22 @@ def run_search(stats, name, strategy, n, seed, tier):
             raise
         del stats.violations[before:]
         stats.violations.append((last["case"], last["detail"], last["fid"]))
+
+
+def _fails_in_fresh_process(pid, case):
+    """replay one case in a new interpreter; True iff it reports a violation there"""
+    import subprocess
+    import tempfile
+    with tempfile.TemporaryDirectory(prefix="verif-replay-") as tmp:
+        path = os.path.join(tmp, "case.json")
+        with open(path, "w") as fh:
+            json.dump({"case": case}, fh, default=str)
+        try:
+            proc = subprocess.run([os.path.join(VERIF, "check"), pid, "--replay", path], stdout=subprocess.PIPE,
+                                  stderr=subprocess.PIPE, timeout=600)
+        except subprocess.TimeoutExpired:
+            return False
+        return proc.returncode == 1 and b"VIOLATION" in proc.stdout
 
 
 def _worker(args):
